@@ -95,6 +95,30 @@ func runC15(c *Ctx) {
 					}
 				}
 			}
+			if !ok2 {
+				// the same bound written as comparisons: `if ms > 0 && ms < int64(b.max) { return time.Duration(ms) }`
+				ms := stripConvert(v)
+				pos, below := false, false
+				for _, g := range Guards(ret) {
+					bo, isB := g.Cond.(*ssa.BinOp)
+					if !isB || bo.X != ms {
+						continue
+					}
+					if k, isK := bo.Y.(*ssa.Const); isK && k.Value != nil && k.Int64() == 0 {
+						if (bo.Op == token.LEQ && !g.Val) || (bo.Op == token.GTR && g.Val) {
+							pos = true
+						}
+					}
+					if isFieldLoad(stripConvert(bo.Y), "b", "max") || isFieldLoad(bo.Y, "b", "max") {
+						if ((bo.Op == token.LSS || bo.Op == token.LEQ) && g.Val) || ((bo.Op == token.GEQ || bo.Op == token.GTR) && !g.Val) {
+							below = true
+						}
+					}
+				}
+				if pos && below {
+					ok2, detail = true, "returns ms under 0 < ms <= b.max"
+				}
+			}
 			c.Ob("C15-D1", name+"/bounded-result", ret.Pos(), ok2, detail)
 		}
 		c.Ob("C15-D1", name+"/returns", fn.Pos(), nret >= 2, fmt.Sprintf("%d return sites", nret))
